@@ -107,12 +107,30 @@ var trieVals = [][]byte{nil, {0x05}, bytes.Repeat([]byte{0x1f}, 31), bytes.Repea
 
 // ------------------------------------------------------------------ proof set
 
+// proofMap is the sink handed to Prove.  Put RETAINS the value slice it is
+// given (only the key is copied): that is what the list behind
+// StateDB.GetProof / GetStorageProof does, so a proof node must stay intact
+// after it has been handed over — while the rest of the proof is produced and
+// afterwards.
 type proofMap struct{ m map[string][]byte }
 
 func newProofMap() *proofMap { return &proofMap{m: map[string][]byte{}} }
 func (p *proofMap) Put(k, v []byte) error {
-	p.m[string(k)] = append([]byte(nil), v...)
+	p.m[string(k)] = v
 	return nil
+}
+
+// sameProof: the two proofs consist of the same nodes under the same hashes.
+func sameProof(a, b *proofMap) bool {
+	if len(a.m) != len(b.m) {
+		return false
+	}
+	for k, v := range a.m {
+		if w, ok := b.m[k]; !ok || !bytes.Equal(v, w) {
+			return false
+		}
+	}
+	return true
 }
 func (p *proofMap) Get(k []byte) ([]byte, error) {
 	v, ok := p.m[string(k)]
@@ -662,7 +680,7 @@ func (d *trieDriver) run(ops []tOp, heavy bool, refRoot *[32]byte) (res trieRes)
 					up.prove(d.path(key), newProofMap())
 				}
 				if last {
-					d.checkProof(in, st, o.K, bad)
+					d.checkProof(in, nil, st, o.K, bad)
 				} else {
 					in.prove(d.path(key), newProofMap())
 				}
@@ -724,7 +742,28 @@ func (d *trieDriver) run(ops []tOp, heavy bool, refRoot *[32]byte) (res trieRes)
 	return
 }
 
-func (d *trieDriver) checkProof(in *trieInst, st *tState, k int, bad func(kind, format string, a ...interface{})) {
+// upFresh: a reference trie holding the content (sorted insertion); the nodes
+// on the path to a key, hence the proof, are a function of the content.
+func (d *trieDriver) upFresh(st *tState) *trieInst {
+	type pair struct{ k, v []byte }
+	var ps []pair
+	for i, v := range st.content {
+		if v != 0 {
+			ps = append(ps, pair{d.keys[i], trieVals[v]})
+		}
+	}
+	sort.Slice(ps, func(i, j int) bool { return bytes.Compare(ps[i].k, ps[j].k) < 0 })
+	t := newUpTrie(d.secure)
+	for _, p := range ps {
+		if err := t.update(p.k, p.v); err != nil {
+			core.Fatal("reference trie update failed: %v", err)
+		}
+	}
+	return t
+}
+
+// checkProof: upT = a reference trie holding the same content (nil: built here).
+func (d *trieDriver) checkProof(in, upT *trieInst, st *tState, k int, bad func(kind, format string, a ...interface{})) {
 	want := trieVals[st.content[k]]
 	pm := newProofMap()
 	// (SecureTrie.Prove, like VerifyProof, takes the hashed key: that is how
@@ -758,6 +797,17 @@ func (d *trieDriver) checkProof(in *trieInst, st *tState, k int, bad func(kind, 
 	}
 	if e2 != nil || !bytes.Equal(v2, want) {
 		bad("proof-rejected-by-reference-verifier", "proof for k%d verified by the reference VerifyProof: %s, %v; content has %s", k, short(v2), e2, short(want))
+		return
+	}
+	if upT == nil {
+		upT = d.upFresh(st)
+	}
+	um := newProofMap()
+	if err := upT.prove(d.path(d.keys[k]), um); err != nil {
+		core.Fatal("reference trie Prove failed: %v", err)
+	}
+	if !sameProof(pm, um) {
+		bad("proof-differs-from-reference", "Prove(k%d): %d proof nodes, the reference trie holding the same content gives %d (or a node differs)", k, len(pm.m), len(um.m))
 	}
 }
 
@@ -798,8 +848,9 @@ func (d *trieDriver) checkState(in, up *trieInst, refRoot *[32]byte, st *tState,
 	if !heavy {
 		return
 	}
+	upT := d.upFresh(st)
 	for k := range d.keys {
-		d.checkProof(in, st, k, bad)
+		d.checkProof(in, upT, st, k, bad)
 	}
 	leaves, err := in.leaves()
 	if err != nil {
